@@ -1,17 +1,40 @@
 package harness
 
 import (
+	"bytes"
 	"context"
 	"fmt"
-	"io"
 	"log"
+	"os"
+	"sync/atomic"
 
 	lime "github.com/takenet/lime-go"
 )
 
+// logTap receives what the library writes to the global logger. It is not an oracle: it only lets a check say, next to a
+// violation it has established otherwise, that the library reported a TCP reset while the case ran (used to key a known finding
+// narrowly). With VERIF_LIBLOG set the lines are also passed on to stderr.
+type logTapWriter struct{}
+
+var libResets int64
+
+func (logTapWriter) Write(p []byte) (int, error) {
+	if bytes.Contains(p, []byte("connection reset by peer")) {
+		atomic.AddInt64(&libResets, 1)
+	}
+	if os.Getenv("VERIF_LIBLOG") != "" {
+		_, _ = os.Stderr.Write(p)
+	}
+	return len(p), nil
+}
+
+// LibResets returns how many log lines of the library have mentioned a connection reset so far.
+func LibResets() int64 { return atomic.LoadInt64(&libResets) }
+
 func init() {
 	// the library logs through the global logger
-	log.SetOutput(io.Discard)
+	log.SetOutput(logTapWriter{})
+	log.SetFlags(log.Lmicroseconds)
 }
 
 // TSend sends an envelope value of any kind on a transport.
